@@ -13,15 +13,22 @@ Definition null_text : bytes := [123; 110; 117; 108; 108; 125].     (* {null} *)
 Fixpoint joinl (l : list bytes) : bytes :=
   match l with [] => [] | [x] => x | x :: r => x ++ sepb ++ joinl r end.
 
+Definition rep_text (n : N) : bytes := [32; 46; 46; 46; 32; 60; 114; 101; 112; 101; 97; 116; 115; 32] ++ dec n ++ [32; 116; 105; 109; 101; 115; 62].    (* " ... <repeats N times>" *)
+
 (** the documented notation, directly on the value *)
 Fixpoint text_of (t : ty) (v : val) {struct v} : bytes :=
   match t, v with
   | TArith a, VRaw x => arith_text ft (atag a) x
   | TEnum _ a es, VRaw x => match lookup a es (hex_Z (raw_to_Z a x)) with [] => [48; 120] ++ hex_Z (raw_to_Z a x) | nm => nm end   (* the enumerator, or 0xHEX *)
-  | Types.TSeq _ e, VSeq vs => if is_char e then map raw_of vs else [91] ++ joinl (map (text_of e) vs) ++ [93]
+  | Types.TSeq _ e, VSeq vs =>
+      if is_char e then map raw_of vs
+      else if (32 <? N.of_nat (List.length vs)) && zero_size e then
+        [91] ++ (match vs with v1 :: _ => text_of e v1 | [] => [] end) ++ rep_text (N.of_nat (List.length vs)) ++ [93]     (* one element and the count *)
+      else [91] ++ joinl (map (text_of e) vs) ++ [93]
   | TTuple ts, VTup vs =>
       [40] ++ joinl ((fix go (vs : list val) (ts : list ty) {struct vs} : list bytes :=
                         match vs, ts with v :: vs', t :: ts' => text_of t v :: go vs' ts' | _, _ => [] end) vs ts) ++ [41]
+  | TStruct n [], VTup _ => before_lt n                                   (* an empty struct: its name *)
   | TStruct n fs, VTup vs =>
       before_lt n ++ [123; 32] ++
       joinl ((fix go (vs : list val) (fs : list (bytes * ty)) {struct vs} : list bytes :=
@@ -53,10 +60,10 @@ Proof.
       change (f (v :: a) (t :: c)) with (text_of t v :: f a c); cbn [tmembers]; f_equal; apply IH
     | rewrite E; reflexivity ] end.
 Qed.
-Lemma text_struct n fs vs : text_of (TStruct n fs) (VTup vs) = before_lt n ++ [123; 32] ++ joinl (tfields vs fs) ++ [32; 125].
+Lemma text_struct n f0 fs0 vs : text_of (TStruct n (f0 :: fs0)) (VTup vs) = before_lt n ++ [123; 32] ++ joinl (tfields vs (f0 :: fs0)) ++ [32; 125].
 Proof.
   cbn [text_of].
-  match goal with |- before_lt n ++ [123; 32] ++ joinl (?f vs fs) ++ [32; 125] = _ =>
+  match goal with |- before_lt n ++ [123; 32] ++ joinl (?f vs (f0 :: fs0)) ++ [32; 125] = _ =>
     assert (E : forall a c, f a c = tfields a c);
     [ intro a; induction a as [|v a IH]; intros [|t c]; try reflexivity;
       change (f (v :: a) (t :: c)) with ((match fst t with [] => [] | _ => fst t ++ [58; 32] end ++ text_of (snd t) v) :: f a c); cbn [tfields]; unfold flabel; f_equal; apply IH
@@ -178,6 +185,28 @@ Proof.
   - destruct W2 as (E2' & Dp & _). unfold wf. cbn [t_state t_depth t_empty]. unfold sn in D2. cbn [t_depth] in D2.
     specialize (Wst Hns). repeat split; try assumption; try lia.
 Qed.
+Lemma repeat_end_step s n tg : tostring_step ft s (CRepeatEnd n tg) = (s, if 1 <? n then rep_text n else []).
+Proof. cbn [tostring_step]. destruct (1 <? n); reflexivity. Qed.
+
+(** more than one zero-size element: the element once, then the count *)
+Lemma repeat_prints n tg cbs txt : 1 < n -> prints cbs txt ->
+  prints ([CSeqBegin n tg; CRepeatBegin n tg] ++ cbs ++ [CRepeatEnd n tg; CSeqEnd]) ([91] ++ txt ++ rep_text n ++ [93]).
+Proof.
+  intros Hn Hv s Hwf. destruct (comma_spec s Hwf) as (s1 & Ec & Hd & He & H1 & H2). destruct Hwf as (We & Wd & Wst).
+  cbn [app tostring tostring_step]. rewrite Ec.
+  assert (Wen : wf (enter_seq s1)) by (unfold wf, enter_seq; cbn [t_state t_depth t_empty]; repeat split; try lia; assumption).
+  rewrite tostring_app. destruct (Hv (enter_seq s1) Wen) as (s2 & E2 & (W2 & D2 & S2 & _)). rewrite E2.
+  cbn [tostring]. rewrite repeat_end_step. apply N.ltb_lt in Hn. rewrite Hn. cbn [tostring_step].
+  exists (leave_seq s2). split.
+  - f_equal. replace (sep (enter_seq s1)) with (@nil N) by reflexivity. rewrite app_nil_r. cbn [app]. rewrite <- !app_assoc. reflexivity.
+  - assert (Dl : (t_depth s2 - 1 = t_depth s)%Z) by (rewrite D2; unfold enter_seq; cbn [t_depth]; lia).
+    unfold post, wf, leave_seq. cbn [t_state t_depth t_empty]. rewrite Dl. destruct W2 as (E2' & _ & _).
+    repeat split; try assumption; try lia.
+    + destruct (t_depth s =? 0)%Z eqn:Ez; [congruence|]. intros _. apply Z.eqb_neq in Ez. lia.
+    + intros Hn'. destruct (t_depth s =? 0)%Z eqn:Ez; [|reflexivity]. apply Z.eqb_eq in Ez. specialize (Wst Hn'). lia.
+    + intros _ Hz. rewrite Hz. reflexivity.
+Qed.
+
 (** an optional / variant prints as its content *)
 Lemma variant_prints d tg cbs txt : prints cbs txt -> prints ([CVariantBegin d tg] ++ cbs ++ [CVariantEnd]) txt.
 Proof.
@@ -201,13 +230,18 @@ Proof.
     rewrite forallb_forall in Hall. cbn [simple] in Hs. cbn [callbacks_b text_of andb].
     destruct (is_char t) eqn:Ec.
     + apply leaf_prints. intros s. reflexivity.
-    + apply (bracket_prints (CSeqBegin (N.of_nat (length vs)) (tag t)) CSeqEnd (map (callbacks_b true t) vs) (map (text_of t) vs) [91] [93]).
-      * intros s. reflexivity.
-      * intros s _. reflexivity.
-      * assert (Hall' : Forall (fun x => wt t x = true) vs) by (apply Forall_forall; exact Hall). clear Hall Ec.
-        induction H as [|v vs Hv _ IHF]; [constructor|]. inversion Hall' as [|? ? W1 W2]; subst. cbn [map]. constructor.
-        -- apply prints_prints_in. apply (Hv t false W1 Hs). apply simple_not_unit; exact Hs.
-        -- apply IHF. exact W2.
+    + destruct ((32 <? N.of_nat (List.length vs)) && zero_size t) eqn:Erep.
+      * apply andb_true_iff in Erep. destruct Erep as [H32 _]. apply N.ltb_lt in H32.
+        destruct vs as [|v1 vs']; [cbn in H32; lia|].
+        apply repeat_prints; [lia|]. inversion H as [|? ? Hv1 _]; subst.
+        apply (Hv1 t false (Hall v1 (or_introl eq_refl)) Hs). apply simple_not_unit; exact Hs.
+      * apply (bracket_prints (CSeqBegin (N.of_nat (List.length vs)) (tag t)) CSeqEnd (map (callbacks_b true t) vs) (map (text_of t) vs) [91] [93]).
+        -- intros s. reflexivity.
+        -- intros s _. reflexivity.
+        -- assert (Hall' : Forall (fun x => wt t x = true) vs) by (apply Forall_forall; exact Hall). clear Hall Ec Erep.
+           induction H as [|v vs Hv _ IHF]; [constructor|]. inversion Hall' as [|? ? W1 W2]; subst. cbn [map]. constructor.
+           ++ apply prints_prints_in. apply (Hv t false W1 Hs). apply simple_not_unit; exact Hs.
+           ++ apply IHF. exact W2.
   - (* tuple *)
     rewrite wt_tuple in Hwt. cbn [simple] in Hs. rewrite cb_tuple, text_tuple.
     apply (bracket_prints (CTupleBegin (concat (map tag ts))) CTupleEnd (cmembers vs ts) (tmembers vs ts) [40] [41]).
@@ -217,17 +251,26 @@ Proof.
       cbn [wt_members forallb cmembers tmembers] in *. apply andb_true_iff in Hwt. destruct Hwt as [W1 W2]. apply andb_true_iff in Hs. destruct Hs as [S1 S2].
       constructor; [apply prints_prints_in; apply (Hv t false W1 S1); apply simple_not_unit; exact S1|apply IH; assumption].
   - (* struct *)
-    rewrite wt_struct in Hwt. cbn [simple] in Hs. apply andb_true_iff in Hs. destruct Hs as [Hne Hs]. rewrite cb_struct, text_struct.
-    assert (Hft : fields_tag fields <> []).
-    { destruct fields as [|f0 fs0]; [discriminate Hne|]. unfold fields_tag. cbn [map concat app]. discriminate. }
-    replace (before_lt name ++ [123; 32] ++ joinl (tfields vs fields) ++ [32; 125]) with ((before_lt name ++ [123; 32]) ++ joinl (tfields vs fields) ++ [32; 125]) by (now rewrite <- app_assoc).
-    apply (bracket_prints (CStructBegin name (fields_tag fields)) CStructEnd (cfields vs fields) (tfields vs fields) (before_lt name ++ [123; 32]) [32; 125]).
-    + intros s. cbn [tostring_step]. destruct (comma s) as [s1 t]. destruct (fields_tag fields); [congruence|]. reflexivity.
-    + intros s He. cbn [tostring_step]. rewrite He. reflexivity.
-    + clear Hnu Hne Hft. revert Hwt Hs. generalize fields as fs. induction H as [|v vs Hv _ IH]; intros fs Hwt Hs; destruct fs as [|fd fs]; try discriminate; [constructor|].
-      cbn [wt_members forallb map cfields tfields] in *. apply andb_true_iff in Hwt. destruct Hwt as [W1 W2]. apply andb_true_iff in Hs. destruct Hs as [S1 S2].
-      constructor; [|apply IH; assumption].
-      unfold flabel. apply field_prints. apply (Hv (snd fd) false W1 S1). apply simple_not_unit. exact S1.
+    rewrite wt_struct in Hwt. cbn [simple] in Hs. rewrite cb_struct.
+    destruct fields as [|f0 fs0].
+    + (* empty struct: the name; the visitor's empty-struct flag is set and cleared *)
+      destruct vs as [|v0 vs0]; [|discriminate Hwt]. cbn [text_of cfields concat app]. change (fields_tag []) with (@nil N).
+      intros s Hwf. destruct (comma_spec s Hwf) as (s1 & Ec & Hd & He & H1 & H2). destruct Hwf as (We & Wd & Wst).
+      cbn [tostring tostring_step]. rewrite Ec. cbn [t_empty t_state t_depth].
+      exists (mkTS (t_state s1) (t_depth s1) false). split; [now rewrite !app_nil_r|].
+      unfold post, wf. cbn [t_state t_depth t_empty]. repeat split; try lia; try assumption.
+      * intros Hn. rewrite Hd. destruct (t_state s) eqn:Es; [rewrite (H2 eq_refl) in Hn; congruence|apply Wst; congruence|apply Wst; congruence].
+      * intros Hn _. apply H2. exact Hn.
+    + rewrite text_struct.
+      assert (Hft : fields_tag (f0 :: fs0) <> []) by (unfold fields_tag; cbn [map concat app]; discriminate).
+      replace (before_lt name ++ [123; 32] ++ joinl (tfields vs (f0 :: fs0)) ++ [32; 125]) with ((before_lt name ++ [123; 32]) ++ joinl (tfields vs (f0 :: fs0)) ++ [32; 125]) by (now rewrite <- app_assoc).
+      apply (bracket_prints (CStructBegin name (fields_tag (f0 :: fs0))) CStructEnd (cfields vs (f0 :: fs0)) (tfields vs (f0 :: fs0)) (before_lt name ++ [123; 32]) [32; 125]).
+      * intros s. cbn [tostring_step]. destruct (comma s) as [s1 t]. destruct (fields_tag (f0 :: fs0)); [congruence|]. reflexivity.
+      * intros s He. cbn [tostring_step]. rewrite He. reflexivity.
+      * clear Hnu Hft. revert Hwt Hs. generalize (f0 :: fs0) as fs. induction H as [|v vs Hv _ IH]; intros fs Hwt Hs; destruct fs as [|fd fs]; try discriminate; [constructor|].
+        cbn [wt_members forallb map cfields tfields] in *. apply andb_true_iff in Hwt. destruct Hwt as [W1 W2]. apply andb_true_iff in Hs. destruct Hs as [S1 S2].
+        constructor; [|apply IH; assumption].
+        unfold flabel. apply field_prints. apply (Hv (snd fd) false W1 S1). apply simple_not_unit. exact S1.
   - (* null *) cbn [callbacks_b text_of]. apply (variant_prints 0 [48] [CNull] null_text). apply null_prints.
   - (* engaged optional / pointer *)
     cbn [wt simple callbacks_b text_of] in *. apply variant_prints. apply (IHv t false Hwt Hs). apply simple_not_unit. exact Hs.
